@@ -18,7 +18,7 @@ _BASE = None
 
 def case_dir():
     global _BASE
-    if _BASE is None or _BASE[1] != os.getpid():
+    if _BASE is None or _BASE[1] != os.getpid() or not os.path.isdir(_BASE[0]):
         _BASE = (env.scratch("vfw"), os.getpid())
     d = os.path.join(_BASE[0], f"c{next(_counter)}")
     os.mkdir(d)
